@@ -510,6 +510,14 @@ PROPS["C09"]["units"].append(F("c09_fuzz_stream", "c09", "FuzzC09Stream", 90))
 PROPS["C09"]["units"].append(F("c09_fuzz_rapid", "c09", "FuzzC09Rapid", 60))
 PROPS["C07"]["units"].append(F("c07_fuzz_rapid", "c07", "FuzzC07Rapid", 90))
 PROPS["C07"]["units"].append(F("c07_fuzz_bytes", "c07", "FuzzC07Bytes", 90))
+PROPS["C07"]["units"].append(U("c07_system", "ext", "sys", "^TestVerifC01System$", (0, 12), shards=(0, 4), timeout=(400, 1500),
+                               tiers=["thorough"], env={"VERIF_SYS_PURPOSE": "c07"}))
+PROPS["C07"]["rule"] += (" c07_system (thorough): the whole-system tier's generated fault schedules (see C01) with all four unmodified "
+                         "binaries logging to files without -unsafe-logging; after every case the appended complete log lines are scanned: "
+                         "a maximal run of address characters that as a whole parses as IP, IP:port, [IP] or [IP]:port (net.ParseIP / "
+                         "net.SplitHostPort) and is not glued to a word is a survivor. Non-trivial = a case in all-binaries mode or with at "
+                         "least one fault (these produce SOCKS/ORPort/dial-error lines carrying addresses); counters report lines scanned "
+                         "and placeholders seen.")
 PROPS["C08"]["units"].append(F("c08_fuzz_rapid", "c08", "FuzzC08Rapid", 60))
 PROPS["C08"]["units"].append(F("c08_fuzz_text", "c08", "FuzzC08Text", 90))
 PROPS["C10"]["units"].append(F("c10_fuzz_decoder", "c10", "FuzzC10Decoder", 90))
